@@ -99,6 +99,17 @@ type whHarness struct {
 	dummy *Connection
 	names []string
 	rooms []string
+	done  chan struct{} // closed when the hub's Run goroutine has returned
+}
+
+// stop ends the hub loop and waits for it: the next harness installs a new hook, which the old
+// loop must not be reading any more
+func (h *whHarness) stop() {
+	close(h.hub.shutdown)
+	select {
+	case <-h.done:
+	case <-time.After(2 * time.Second):
+	}
 }
 
 func newWhHarness(cfg whCfg, names, rooms []string, socks *whSockets) *whHarness {
@@ -109,7 +120,8 @@ func newWhHarness(cfg whCfg, names, rooms []string, socks *whSockets) *whHarness
 	c.MessageQueueStrategy = QueueStrategy(cfg.Strategy)
 	c.EnableReconnection = false
 	h := &whHarness{hub: NewHubWithConfig(c), conns: map[string]*Connection{}, names: names, rooms: rooms}
-	go h.hub.Run()
+	h.done = make(chan struct{})
+	go func() { h.hub.Run(); close(h.done) }()
 	<-h.hub.started
 	for _, n := range names {
 		h.conns[n] = NewConnection(n, socks.get(), h.hub)
@@ -313,7 +325,7 @@ func TestVerifHubReplay(t *testing.T) {
 			}
 		}
 		h.hub.unregister <- h.dummy
-		close(h.hub.shutdown)
+		h.stop()
 	}
 	enc.Encode(map[string]int{"summary": 1, "cases": ncases, "steps": nsteps, "mismatches": nmis})
 }
@@ -480,7 +492,7 @@ func TestVerifHubRecord(t *testing.T) {
 			// quiescent check on the real state
 			st := h.project()
 			enc.Encode(map[string]interface{}{"ev": "Final", "state": whNorm(st, names, rooms), "st": st})
-			close(h.hub.shutdown)
+			h.stop()
 		}
 	}
 }
@@ -575,5 +587,5 @@ func TestVerifHubBurst(t *testing.T) {
 	emu.Unlock()
 	st := h.project()
 	enc.Encode(map[string]interface{}{"ev": "Final", "state": whNorm(st, names, rooms), "st": st})
-	close(h.hub.shutdown)
+	h.stop()
 }
